@@ -40,7 +40,7 @@ impl ListenerScn {
 }
 
 pub fn gen(rng: &mut Rng) -> ListenerScn {
-    let keys = rng.range(1, 3) as u32;
+    let keys = rng.range(1, 4) as u32;
     // mostly small limits (where shedding happens), sometimes the largest ones ("no limit")
     let n = *rng.pick(&[1u32, 1, 1, 2, 2, 2, 3, 3, u32::MAX, u32::MAX - 1]);
     let nb = rng.range(1, 10);
@@ -73,6 +73,23 @@ pub fn gen(rng: &mut Rng) -> ListenerScn {
         batches.push(b);
     }
     ListenerScn { n, batches }
+}
+
+/// The key the limiter sees. Keys 2k and 2k+1 are different keys with the *same hash* (a `Hash`
+/// impl may legally cover less than `Eq` compares): the limit is per key, not per hash.
+#[derive(Clone, Copy, PartialEq, Eq, Debug)]
+pub struct LKey(pub u32);
+
+impl std::fmt::Display for LKey {
+    fn fmt(&self, f: &mut std::fmt::Formatter<'_>) -> std::fmt::Result {
+        write!(f, "{}", self.0)
+    }
+}
+
+impl std::hash::Hash for LKey {
+    fn hash<H: std::hash::Hasher>(&self, state: &mut H) {
+        (self.0 >> 1).hash(state)
+    }
 }
 
 /// A do-nothing transport that knows its key and reports its own drop.
@@ -153,9 +170,9 @@ pub fn run(scn: &ListenerScn, tape: Tape) -> RunOutput {
             let scn = scn2;
             let sh = Rc::new(RefCell::new(ListenerShared::default()));
             let listener = ScriptedListener { sh: sh.clone(), sim: sim.clone() };
-            let limited = listener.max_channels_per_key(scn.n, |c: &Chan| c.get_ref().key);
+            let limited = listener.max_channels_per_key(scn.n, |c: &Chan| LKey(c.get_ref().key));
             // admitted & alive channels: (serial, key, channel)
-            type Tracked = tarpc::server::limits::channels_per_key::TrackedChannel<Chan, u32>;
+            type Tracked = tarpc::server::limits::channels_per_key::TrackedChannel<Chan, LKey>;
             let alive: Rc<RefCell<Vec<(u32, u32, Tracked)>>> = Rc::new(RefCell::new(Vec::new()));
             let (sim_l, alive_l) = (sim.clone(), alive.clone());
             let lt = sim.spawn("listener", async move {
